@@ -225,6 +225,22 @@ fn check_tape(tape: &[u8], gates: &Gates, stats: &mut Stats, counting: bool) -> 
             stats.class("text.bom-like-sequence-first-non-ascii");
         }
     }
+    // a first line that looks like an editor's encoding declaration (Emacs, Vim, Python, XML style):
+    // it is a comment - the encoding of a file is what its bytes are, whatever a comment says
+    if choice.ratio(1, 10) {
+        let label = *choice.pick(&["latin1", "windows-1250", "iso-8859-15", "utf-16le", "UTF-16BE", "utf-8", "cp437", "gb18030", "shift_jis", "windows-1252", "ascii"]);
+        let head = match choice.below(5) {
+            0 => format!("(* -*- coding: {} -*- *)", label),
+            1 => format!("(* coding: {} *)", label),
+            2 => format!("(* vim: set fileencoding={} : *)", label),
+            3 => format!("(* Encoding: {} *)", label),
+            _ => format!("(* <?xml version=\"1.0\" encoding=\"{}\"?> charset={} *)", label, label),
+        };
+        text = format!("{}{}{}", head, if crlf { "\r\n" } else { "\n" }, text);
+        if counting {
+            stats.class("text.first-line-encoding-declaration");
+        }
+    }
     // Windows-1252 characters whose bytes happen to be a well-formed UTF-8 sequence ("Ã©" = C3 A9,
     // "â‚¬" = E2 82 AC, "Ø±" = D8 B1 ...) in front of the code of some lines, and one lone high byte
     // at the very end: the file as a whole is not UTF-8, so every byte of it is Windows-1252 - also
